@@ -248,7 +248,9 @@ func (d *Disk) open(name string, flag int, perm fs.FileMode) (*File, error) {
 }
 
 // OpenFile mirrors os.OpenFile.
-func OpenFile(name string, flag int, perm FileMode) (*File, error) { return disk.open(name, flag, perm) }
+func OpenFile(name string, flag int, perm FileMode) (*File, error) {
+	return disk.open(name, flag, perm)
+}
 
 // Open mirrors os.Open.
 func Open(name string) (*File, error) { return disk.open(name, O_RDONLY, 0) }
